@@ -71,11 +71,13 @@ def run(chk: Check, drv: Driver):
     items = []
     for pr in prepared:
         for k in range(3 if quick else 6):
-            sizes = problems.index_sizes(pr.assignment, rng, (0, 1, 2, 3, 3))
+            sizes = problems.index_sizes(pr.assignment, rng, (0, 2, 3, 3, 4))
             ins = {}
             for name, t in pr.tensors_of().items():
                 dims = tuple(sizes[i] for i in t.indexes)
-                density = rng.choice([0.0, 0.0, 0.2, 0.5, 1.0])
+                # compressed inputs get partial patterns (that is where support is a proper subset);
+                # all-dense inputs are structurally full whatever is stored
+                density = rng.choice([0.0, 0.2, 0.4, 0.6]) if "s" in pr.fmts[name][0] else rng.choice([0.0, 1.0])
                 ins[name] = (problems.random_input(rng, dims, density), dims)
             items.append((pr, sizes, ins))
     runs = kruns.machine_runs(drv, items, kinds=("evaluate", "assemble"))
